@@ -24,6 +24,9 @@ type observation struct {
 	Commits   map[string]map[tp]committed
 	Listed    []string
 	Described []string
+	// transaction registrations on topics that do not exist (deleted while
+	// the transaction was open): not judged
+	RegsOnMissingTopics int
 }
 
 func observe(ctx context.Context, n *node, groups, txids []string, withConfigs bool) (*observation, error) {
@@ -63,7 +66,8 @@ func observe(ctx context.Context, n *node, groups, txids []string, withConfigs b
 		}
 		o.Commits[g] = c
 	}
-	if o.Listed, o.Described, err = n.txnStates(ctx, txids); err != nil {
+	exists := func(topic string) bool { _, ok := o.Topics[topic]; return ok }
+	if o.Listed, o.Described, o.RegsOnMissingTopics, err = n.txnStates(ctx, txids, exists); err != nil {
 		return nil, fmt.Errorf("transactions: %w", err)
 	}
 	return o, nil
@@ -76,7 +80,9 @@ type obsDiff struct {
 
 // diffObs lists the differences between two observations of what must be the
 // same state.
-func diffObs(a, b *observation) (out []obsDiff) {
+// staleTxn names partitions of recreated topics on whose deleted incarnation an
+// open transaction is still registered.
+func diffObs(a, b *observation, staleTxn map[tp]bool) (out []obsDiff) {
 	add := func(class, format string, args ...any) {
 		for _, d := range out {
 			if d.Class == class {
@@ -125,7 +131,9 @@ func diffObs(a, b *observation) (out []obsDiff) {
 		if !bytes.Equal(va.Raw, vb.Raw) {
 			add("logs", "partition %s/%d fetched bytes differ: %d bytes / %d records before, %d bytes / %d records after", k.Topic, k.Part, len(va.Raw), len(va.Recs), len(vb.Raw), len(vb.Recs))
 		}
-		if va.LogStart != vb.LogStart || va.HWM != vb.HWM || va.LSO != vb.LSO {
+		if va.LogStart == vb.LogStart && va.HWM == vb.HWM && va.LSO != vb.LSO && staleTxn[k] {
+			add("last stable offset of a recreated topic moved by a transaction registered on its deleted incarnation", "partition %s/%d before logStart=%d hwm=%d lso=%d, after logStart=%d hwm=%d lso=%d", k.Topic, k.Part, va.LogStart, va.HWM, va.LSO, vb.LogStart, vb.HWM, vb.LSO)
+		} else if va.LogStart != vb.LogStart || va.HWM != vb.HWM || va.LSO != vb.LSO {
 			add("log start / high watermark / last stable offset", "partition %s/%d before logStart=%d hwm=%d lso=%d, after logStart=%d hwm=%d lso=%d", k.Topic, k.Part, va.LogStart, va.HWM, va.LSO, vb.LogStart, vb.HWM, vb.LSO)
 		}
 		if !reflect.DeepEqual(va.Producers, vb.Producers) {
@@ -168,6 +176,7 @@ type judgeCounts struct {
 	AcksChecked       int // produce acks (batches' records) required present
 	CommitsChecked    int
 	PartitionsChecked int
+	Probes            int
 	Dontcare          map[string]int
 }
 
